@@ -308,7 +308,7 @@ pub fn sets(ctx: &Ctx) -> Vec<CaseSet> {
     // 2. random digit strings up to 400 digits
     out.push(CaseSet::new(
         "random-digit-strings",
-        ctx.size(120_000, 6_000_000),
+        ctx.size(360_000, 6_000_000),
         Box::new(move |rep, rng, _| {
             let (radix, prefix) = *rng.pick(&[(2u32, "#b"), (8, "#o"), (10, ""), (10, "#d"), (16, "#x")]);
             let n = match rng.below(6) {
@@ -336,7 +336,7 @@ pub fn sets(ctx: &Ctx) -> Vec<CaseSet> {
     // 3. doubles re-spelled
     out.push(CaseSet::new(
         "respelled-doubles",
-        ctx.size(360_000, 18_000_000),
+        ctx.size(1_000_000, 18_000_000),
         Box::new(move |rep, rng, _| {
             let f = gen::gen_f64(rng);
             let t = respell(rng, f);
@@ -348,7 +348,7 @@ pub fn sets(ctx: &Ctx) -> Vec<CaseSet> {
     // 4. special regions
     out.push(CaseSet::new(
         "special-regions",
-        ctx.size(60_000, 3_000_000),
+        ctx.size(240_000, 3_000_000),
         Box::new(move |rep, rng, _| {
             let mut break_out: Option<String> = None;
             let t = match rng.below(9) {
@@ -446,7 +446,7 @@ pub fn sets(ctx: &Ctx) -> Vec<CaseSet> {
     let tb5 = tb.clone();
     out.push(CaseSet::new(
         "printer-output",
-        ctx.size(180_000, 9_000_000),
+        ctx.size(500_000, 9_000_000),
         Box::new(move |rep, rng, _| {
             let v = if rng.bool() { Value::Number(gen::int_to_number(gen::gen_int(rng, &tb5.ints))) } else { Value::from(gen::gen_f64(rng)) };
             let text = lexpr::to_string(&v).unwrap();
